@@ -13,24 +13,85 @@ pub fn expand(_op: &str) -> Vec<String> {
     vec![]
 }
 
-/// generate a history live, then star every frame the device answered with `NoUpdate`
+/// generate a history live, then star every frame the REFERENCE rejects: unparseable bytes, data
+/// frames whose MIC verifies under no counter, and — tracking the reference acceptance rule of C05 on
+/// the network's side (never the implementation's answers) — authentic frames whose counter is not
+/// fresh (replays, stale, far-future)
 fn starred_history(rng: &mut Rng, region: &str, o: &Opts) -> String {
     let op = gen_history("C07", rng, region, o);
-    let outs = run_history(&op);
-    let (hd, evs) = split_events(&op);
+    star_by_reference(&op)
+}
+
+pub fn star_by_reference(op: &str) -> String {
+    let (hd, evs) = split_events(op);
     let mut line = hd;
-    for (i, e) in evs.iter().enumerate() {
+    let mut last: Option<u32> = None;
+    let mut joined = false;
+    let mut joining = false;
+    let mut ambiguous = false;
+    for e in evs.iter() {
         line.push_str(" ; ");
-        let is_rx = e.starts_with("rx1") || e.starts_with("rx2") || e.starts_with("rxc");
-        // "rejected" is decided from the reference view, never from the implementation's answer:
-        // garbage, a data frame whose MIC verifies under no counter, or a JoinAccept with bad MIC
-        let rejected_by_view = {
-            let w: Vec<&str> = e.split_whitespace().collect();
-            is_rx && (w.get(3) == Some(&"g") || (w.get(3) == Some(&"d") && w.get(7) == Some(&"-")))
-        };
-        let _ = &outs;
-        let _ = i;
-        if rejected_by_view && !oversize(e) {
+        let w: Vec<&str> = e.split_whitespace().collect();
+        let mut star = false;
+        match w.first().copied() {
+            Some("abp") => {
+                joined = true;
+                last = None;
+                ambiguous = false;
+            }
+            Some("sess") => {
+                joined = true;
+                last = w.get(3).and_then(|x| x.parse().ok());
+                ambiguous = false;
+            }
+            Some("otaa") => {
+                joining = true;
+                joined = false;
+            }
+            Some("rx1") | Some("rx2") | Some("rxc") => {
+                match w.get(3).copied() {
+                    Some("g") => star = true,
+                    Some("j") => {
+                        if joining && w.get(4) == Some(&"1") && w[0] != "rxc" {
+                            joining = false;
+                            joined = true;
+                            last = None;
+                            ambiguous = false;
+                        } else if w.get(4) != Some(&"1") {
+                            star = true;
+                        }
+                    }
+                    Some("d") if !oversize(e) => {
+                        let f16: u32 = w.get(6).and_then(|x| x.parse().ok()).unwrap_or(0);
+                        let mic: Option<u32> = w.get(7).and_then(|x| x.parse().ok());
+                        if mic.is_none() {
+                            star = true;
+                        } else if joined && !ambiguous {
+                            let n = mic.unwrap();
+                            let fresh = match last {
+                                None => n == f16,
+                                Some(l) => (l as u64) < n as u64 && n as u64 <= l as u64 + 16384,
+                            };
+                            if fresh {
+                                last = Some(n);
+                            } else {
+                                star = true;
+                            }
+                        }
+                    }
+                    Some("d") => {
+                        // too long for the smallest regional limit: whether it fits depends on the
+                        // window's data rate, so the reference state becomes unknown from here on
+                        if w.get(7).and_then(|x| x.parse::<u32>().ok()).is_some() {
+                            ambiguous = true;
+                        }
+                    }
+                    _ => {}
+                }
+            }
+            _ => {}
+        }
+        if star {
             line.push('*');
         }
         line.push_str(e);
@@ -68,17 +129,7 @@ pub fn run(tier: &str, seed: u64, dir: &str) {
             h.rx_bytes("rx1", 0, &b, hint);
             h.timeout().snap().send(1, false, &[3]).timeout().snap();
             let op = h.done();
-            // star the rejected frame if the reference view says so
-            let (hd, evs) = split_events(&op);
-            let mut line = hd;
-            for e in evs {
-                line.push_str(" ; ");
-                let w: Vec<&str> = e.split_whitespace().collect();
-                if (e.starts_with("rx1")) && (w.get(3) == Some(&"g") || (w.get(3) == Some(&"d") && w.get(7) == Some(&"-"))) && !oversize(&e) {
-                    line.push('*');
-                }
-                line.push_str(&e);
-            }
+            let line = star_by_reference(&op);
             sink.case(&line, &eval(&line), "sticky-answer-vs-forged-frame", true);
         }
     }
